@@ -35,8 +35,8 @@ Plan gen_c22(sk::Rng& r, Tier) {
         Op op;
         const auto c = r.below(100);
         if (c < 25) { op.k = "store"; op.a = {static_cast<std::int64_t>(r.below(4)), static_cast<std::int64_t>(r.below(100))}; }
-        else if (c < 45) { op.k = "ingest"; op.a = {static_cast<std::int64_t>(r.below(4)), r.pick<std::int64_t>({1, 2, 3, 5, 17, 100, 254}), r.range(1, 6)}; }  // chunk, shards, threshold
-        else if (c < 55) { op.k = "announce"; op.a = {static_cast<std::int64_t>(r.below(4)), r.pick<std::int64_t>({1, 3, 7, 64}), r.range(1, 4), static_cast<std::int64_t>(r.below(40))}; }
+        else if (c < 45) { op.k = "ingest"; op.a = {static_cast<std::int64_t>(r.below(4)), r.pick<std::int64_t>({1, 2, 3, 5, 17, 100, 254}), r.range(1, 6), r.pick<std::int64_t>({1, 1, 2, 3, 4, 5, 6, 8}), static_cast<std::int64_t>(r.below(3)), static_cast<std::int64_t>(r.below(2))}; }  // chunk, shards, threshold, label stride, label base, reversed
+        else if (c < 55) { op.k = "announce"; op.a = {static_cast<std::int64_t>(r.below(4)), r.pick<std::int64_t>({1, 3, 7, 64}), r.range(1, 4), static_cast<std::int64_t>(r.below(40)), r.pick<std::int64_t>({1, 1, 2, 3, 4, 5, 6, 8}), static_cast<std::int64_t>(r.below(3)), static_cast<std::int64_t>(r.below(2))}; }
         else if (c < 68) { op.k = "peer"; op.a = {static_cast<std::int64_t>(r.below(44)), r.pick<std::int64_t>({1, 30, 900}), static_cast<std::int64_t>(r.below(3))}; }
         else if (c < 80) { op.k = "load"; op.a = {static_cast<std::int64_t>(r.below(44)), static_cast<std::int64_t>(r.below(4)), static_cast<std::int64_t>(r.below(6))}; }  // peer, kind, amount
         else if (c < 90) { op.k = "adv"; op.a = {r.pick<std::int64_t>({500, 1000, 5000, 31000, 60000, 901000})}; }
@@ -121,13 +121,20 @@ void exec_c22(const Plan& p, Ctx& ctx) {
         ctx.state(static_cast<std::uint64_t>(cands.size()) * 1000003 + shards * 257 + plan->assignments.size());
     };
 
-    auto harness_manifest = [&](const en::ChunkId& id, int shards, int threshold) {
+    // shard labels (Shamir x-coordinates) need only be distinct and non-zero: a manifest from elsewhere may carry any such set,
+    // e.g. every second label, multiples of the provider count, or a descending order. stride 0/1 = 1..n as the node's own split gives.
+    auto harness_manifest = [&](const en::ChunkId& id, int shards, int threshold, std::int64_t stride = 1, std::int64_t base_kind = 0, bool reversed = false) {
         en::protocol::Manifest m{};
         m.chunk_id = id;
         m.threshold = static_cast<std::uint8_t>(std::min(threshold, shards));
         m.total_shares = static_cast<std::uint8_t>(shards);
         m.expires_at = std::chrono::system_clock::time_point(std::chrono::nanoseconds(sk::kWallEpochNs + sk::now_ns() + 3000 * kSec));
-        for (int i = 0; i < shards; ++i) { en::protocol::KeyShard s{}; s.index = static_cast<std::uint8_t>(i + 1); s.value.fill(static_cast<std::uint8_t>(i)); m.shards.push_back(s); }
+        if (stride < 1) stride = 1;
+        std::int64_t base = base_kind == 0 ? 1 : base_kind == 1 ? 2 : stride;
+        if (base + static_cast<std::int64_t>(shards - 1) * stride > 255) { stride = 1; base = 1; }
+        if (stride > 1) ctx.probe("manifest_with_non_contiguous_shard_labels");
+        for (int i = 0; i < shards; ++i) { en::protocol::KeyShard s{}; s.index = static_cast<std::uint8_t>(base + i * stride); s.value.fill(static_cast<std::uint8_t>(i)); m.shards.push_back(s); }
+        if (reversed) std::reverse(m.shards.begin(), m.shards.end());
         return m;
     };
 
@@ -155,12 +162,12 @@ void exec_c22(const Plan& p, Ctx& ctx) {
             check_plan(id, "store", cands);
         } else if (op.k == "ingest") {
             const auto id = make_id(static_cast<std::uint8_t>(op.at(0) + 1), 0x44);
-            const auto m = harness_manifest(id, static_cast<int>(op.at(1)), static_cast<int>(op.at(2)));
+            const auto m = harness_manifest(id, static_cast<int>(op.at(1)), static_cast<int>(op.at(2)), op.at(3, 1), op.at(4), op.at(5) != 0);
             const auto cands = candidates_for(id);
             if (node->ingest_manifest(en::protocol::encode_manifest(m))) check_plan(id, "ingest", cands);
         } else if (op.k == "announce") {
             const auto id = make_id(static_cast<std::uint8_t>(op.at(0) + 1), 0x44);
-            const auto m = harness_manifest(id, static_cast<int>(op.at(1)), static_cast<int>(op.at(2)));
+            const auto m = harness_manifest(id, static_cast<int>(op.at(1)), static_cast<int>(op.at(2)), op.at(4, 1), op.at(5), op.at(6) != 0);
             en::protocol::AnnouncePayload a{};
             a.chunk_id = id; a.peer_id = swarm_peer(static_cast<int>(op.at(3))); a.endpoint = "10.3.9.9:4000"; a.ttl = seconds(300);
             a.manifest_uri = en::protocol::encode_manifest(m);
